@@ -30,13 +30,26 @@ type vfC15World struct {
 	h      []*HttpServer
 	cursor []string
 	call   []string
+	sid    []string // stream id each stream was given at init (as a dispatch hook sees it)
+	last   string   // stream id of the latest dispatch in this world
 }
 
+// vfC15Hook records the stream id every dispatch runs under: part of a continuation's outcome is
+// WHICH call it was served as.
+type vfC15Hook struct{ w *vfC15World }
+
+func (k vfC15Hook) OnDispatchStart(ctx context.Context, info DispatchInfo) (context.Context, HookToken) {
+	k.w.last = info.StreamID
+	return ctx, nil
+}
+func (k vfC15Hook) OnDispatchEnd(context.Context, HookToken, DispatchInfo, *CallStatistics, error) {}
+
 func vfC15NewWorld(cache int, nInst, nStreams int) *vfC15World {
-	w := &vfC15World{cursor: make([]string, nStreams), call: make([]string, nStreams)}
+	w := &vfC15World{cursor: make([]string, nStreams), call: make([]string, nStreams), sid: make([]string, nStreams)}
 	key := []byte("fedcba9876543210fedcba9876543210")
 	for i := 0; i < nInst; i++ {
 		s := NewServer()
+		s.SetDispatchHook(vfC15Hook{w})
 		Exchange(s, "ex", vfOutSchema, vfInSchema, func(ctx context.Context, cc *CallContext, p VfXParams) (*StreamResult, error) {
 			return &StreamResult{OutputSchema: vfOutSchema, State: &VfExchanger{}}, nil
 		})
@@ -60,12 +73,19 @@ func (w *vfC15World) init(stream, inst int) bool {
 		return false
 	}
 	w.cursor[stream], w.call[stream] = vfTokens(st)
-	return w.cursor[stream] != ""
+	w.sid[stream] = w.last
+	return w.cursor[stream] != "" && w.sid[stream] != ""
 }
 
 // cont returns "accept", "refuse" or "other:<detail>".
 func (w *vfC15World) cont(stream, inst int) string {
-	rec, pan := vfArrowPost(w.h[inst], "/ex/exchange", vfExchangeBody(vfI64Batch("x", 1), w.cursor[stream], w.call[stream]))
+	return w.contWith(stream, inst, w.call[stream])
+}
+
+// contWith continues `stream` presenting callTok as the call token (the stream's own one, another
+// stream's, or none at all).
+func (w *vfC15World) contWith(stream, inst int, callTok string) string {
+	rec, pan := vfArrowPost(w.h[inst], "/ex/exchange", vfExchangeBody(vfI64Batch("x", 1), w.cursor[stream], callTok))
 	if pan != nil {
 		return fmt.Sprintf("other:panic %v", pan)
 	}
@@ -82,6 +102,15 @@ func (w *vfC15World) cont(stream, inst int) string {
 	switch {
 	case rec.Code == 200 && nData == 1 && cur != "" && nErr == 0:
 		w.cursor[stream] = cur
+		if w.last != w.sid[stream] {
+			as := "an-unknown-call"
+			for k, id := range w.sid {
+				if id != "" && id == w.last {
+					as = fmt.Sprintf("stream%d", k)
+				}
+			}
+			return "accept-served-as-" + as
+		}
 		return "accept"
 	case rec.Code >= 400 && rec.Code < 500 && nErr == 1:
 		return "refuse"
@@ -99,9 +128,9 @@ func TestVerif_C15(t *testing.T) {
 		advances = append(advances, vfC15TTL/2)
 	}
 	type ev struct {
-		kind   string
-		s, i   int
-		d      time.Duration
+		kind string
+		s, i int
+		d    time.Duration
 	}
 	var evs []ev
 	for s := 0; s < nStreams; s++ {
@@ -116,6 +145,14 @@ func TestVerif_C15(t *testing.T) {
 	}
 	for _, d := range advances {
 		evs = append(evs, ev{kind: "adv", d: d})
+	}
+	// a client that mixes up what it holds: stream s's cursor with the other stream's call token
+	// ("mix") or with no call token at all ("nocall"). Whatever the cache holds, such a request can
+	// only be judged by the tokens it presents, so it must be refused in every world.
+	for s := 0; s < nStreams; s++ {
+		for i := 0; i < nInst; i++ {
+			evs = append(evs, ev{kind: "mix", s: s, i: i}, ev{kind: "nocall", s: s, i: i})
+		}
 	}
 	name := func(e int) string {
 		v := evs[e]
@@ -207,6 +244,36 @@ func TestVerif_C15(t *testing.T) {
 					} else {
 						dead[v.s] = true
 					}
+				case "mix", "nocall":
+					other := (v.s + 1) % nStreams
+					if !inited[v.s] || dead[v.s] || (v.kind == "mix" && !inited[other]) {
+						if last {
+							return "", false
+						}
+						continue
+					}
+					var got []string
+					for _, w := range worlds {
+						tok := ""
+						if v.kind == "mix" {
+							tok = w.call[other]
+						}
+						keep := w.cursor[v.s]
+						got = append(got, w.contWith(v.s, v.i, tok))
+						w.cursor[v.s] = keep // the client discards whatever this request returned
+					}
+					trail = append(trail, fmt.Sprintf("%s->%s", name(e), strings.Join(got, "/")))
+					for k := range got {
+						if strings.HasPrefix(got[k], "other:") {
+							x.Failf("C15:unexpected-response:"+v.kind+":cache="+vfC15CacheName(caches[k]), "%s answered %s (history %s)", v.kind, got[k], strings.Join(trail, " "))
+						}
+					}
+					// The verdict of such a request is NOT judged: a warm cache deliberately answers
+					// without consulting the call token (pinned by the repository's own
+					// TestResolveCallFallsBackToTheClientToken), and the statement quantifies over
+					// continuations, i.e. requests presenting the stream's own tokens. What is judged
+					// is that the noise leaves every later continuation's outcome unchanged; the
+					// client keeps using the cursor it held before (cursors are not single-use).
 				case "adv":
 					vsched.Advance(v.d)
 				}
